@@ -13,6 +13,7 @@ package zipslicer
 //@   property C11
 //@   nopanic
 //@   ensures @directory_present_on_success ret1 == nil ==> ret0 != nil
+//@   ensures @directory_lies_within_the_file ret1 == nil && size >= 0 ==> ret0.Size == size && ret0.DirLoc <= size
 //@   requires r != nil
 //@   allocbound 0 size + 65536
 //@
@@ -20,6 +21,7 @@ package zipslicer
 //@   property C11
 //@   nopanic
 //@   ensures @directory_present_on_success ret1 == nil ==> ret0 != nil
+//@   ensures @directory_lies_within_the_file ret1 == nil && size >= 0 ==> ret0.Size == size && ret0.DirLoc <= size
 //@   allocbound 0 262144
 //@   loop 1 sig "for len(extra) >= 4" invariant len(extra) <= 65535
 //@
